@@ -84,6 +84,18 @@ pub fn compile_failures(ctx: &mut Ctx, allowed: &[&'static str]) -> Option<Value
         let opts: Vec<String> = spec["options"].as_array().map(|a| a.iter().filter_map(|x| x.as_str().map(String::from)).collect()).unwrap_or_default();
         // K5: pest_optimizer = false together with a counted repetition
         let counted = crate::ir::Grammar::parse(text).map(|g| g.raw.iter().any(|r| r.expr.any(&|e| matches!(e, crate::ir::Expr::RepExact(..) | crate::ir::Expr::RepMin(..) | crate::ir::Expr::RepMax(..) | crate::ir::Expr::RepMinMax(..))))).unwrap_or(false);
+        // K7: the Unicode property INHERITED collides with the const parameter of the rule structs
+        let mentions_inherited = crate::ir::Grammar::parse(text).map(|g| !g.has("INHERITED") && g.raw.iter().any(|r| r.expr.any(&|e| matches!(e, crate::ir::Expr::Ident(n) if n == "INHERITED")))).unwrap_or(false);
+        if allowed.contains(&"K7") && ctx.open("K7") && mentions_inherited {
+            ctx.ev.known_finding("K7");
+            if id.starts_with("kf_K7") {
+                crate::common::print_known(ctx.prop, "K7", "a grammar that mentions the Unicode property rule INHERITED emits code that does not compile (E0747)");
+            }
+            continue;
+        }
+        if !allowed.contains(&"K7") && mentions_inherited {
+            continue; // C11's business
+        }
         if allowed.contains(&"K5") && ctx.open("K5") && counted && opts.iter().any(|o| o.replace(' ', "") == "pest_optimizer=false") {
             ctx.ev.known_finding("K5");
             if id.starts_with("kf_K5") {
